@@ -77,74 +77,6 @@ def join_vocabulary(ctx):
     return sorted(out)
 
 
-def eval_join_dispatch(ctx, ps, join_type):
-    """partial evaluation of the fragment between `join_type = item['join_type']` and the getattr(query, method)(...) call"""
-    frag = None
-    for n in ast.walk(ps):
-        if isinstance(n, ast.If) or isinstance(n, ast.For) or isinstance(n, ast.FunctionDef):
-            body_lists = [getattr(n, 'body', []), getattr(n, 'orelse', [])]
-            for body in body_lists:
-                for i, st in enumerate(body):
-                    if isinstance(st, ast.Assign) and norm(st.targets[0]) == 'join_type' and "['join_type']" in norm(st.value):
-                        frag = body[i + 1:]
-    ctx.need(frag is not None, "prepare_select: `join_type = item['join_type']` not found")
-    env = {'join_type': join_type}
-    outcome = {}
-
-    def run(stmts):
-        for st in stmts:
-            if isinstance(st, ast.Expr) and isinstance(st.value, ast.Constant):
-                continue
-            if isinstance(st, ast.Assign) and isinstance(st.targets[0], ast.Name):
-                v = st.value
-                if isinstance(v, ast.Call) and isinstance(v.func, ast.Call) and dotted(v.func.func) == 'getattr' \
-                        and norm(v.func.args[0]) == 'query':
-                    outcome['method'] = peval.ev(v.func.args[1], env)
-                    for k in v.keywords:
-                        if k.arg == 'full':
-                            outcome['full'] = bool(peval.ev(k.value, env))
-                        if k.arg == 'isouter' and peval.ev(k.value, env):
-                            outcome['method'] = 'outerjoin'
-                    outcome.setdefault('full', False)
-                    return 'done'
-                if isinstance(v, ast.Call) and isinstance(v.func, ast.Attribute) and norm(v.func.value) == 'query' and v.func.attr in ('join', 'outerjoin'):
-                    outcome['method'] = v.func.attr
-                    outcome['full'] = any(k.arg == 'full' and peval.ev(k.value, env) for k in v.keywords)
-                    if any(k.arg == 'isouter' and peval.ev(k.value, env) for k in v.keywords):
-                        outcome['method'] = 'outerjoin'
-                    return 'done'
-                try:
-                    env[st.targets[0].id] = peval.ev(v, env)
-                except (AnalysisError, KeyError) as e:
-                    if isinstance(e, KeyError):
-                        outcome['raises'] = 'KeyError'
-                        return 'done'
-                    raise AnalysisError(f'prepare_select join dispatch: unmodelled assignment `{norm(st)}`')
-            elif isinstance(st, ast.Assign) and isinstance(st.targets[0], ast.Tuple):
-                try:
-                    vals = peval.ev(st.value, env)
-                except KeyError:
-                    outcome['raises'] = 'KeyError'
-                    return 'done'
-                for t, x in zip(st.targets[0].elts, vals):
-                    env[t.id] = x
-            elif isinstance(st, ast.If):
-                r = run(st.body if peval.ev(st.test, env) else st.orelse)
-                if r:
-                    return r
-            elif isinstance(st, ast.Raise):
-                outcome['raises'] = ((dotted(st.exc.func) if isinstance(st.exc, ast.Call) else dotted(st.exc)) or '?').split('.')[-1]
-                return 'done'
-            else:
-                raise AnalysisError(f'prepare_select join dispatch: unmodelled statement `{norm(st)}`')
-        return None
-    # module-level constants the fragment may use (lookup tables)
-    tree_env = {}
-    r = run(frag)
-    ctx.need(r == 'done', 'prepare_select join dispatch: no query.join/outerjoin call reached')
-    return outcome
-
-
 def interpret_join(ctx, cls, ps, join_type):
     """prepare_select interpreted on `SELECT * FROM a <join_type> b ON c` with a generative stand-in for the SQLAlchemy select: which join method is
     called with which flags, or which exception ends the rendering"""
@@ -567,30 +499,6 @@ def _first_use_is_store(loop, name):
 class _Node:
     def __init__(self, cls, unique):
         self.cls, self.unique = cls, unique
-
-
-def eval_join_dispatch_with_globals(ctx, tree, ps, jt):
-    """the dispatch may use module-level lookup tables (dict literals): make them available"""
-    consts = {}
-    for st in tree.body:
-        if isinstance(st, ast.Assign) and isinstance(st.targets[0], ast.Name):
-            try:
-                consts[st.targets[0].id] = peval.ev(st.value, _JoinTypeEnv(ctx))
-            except Exception:
-                pass
-    # re-run with the constants bound: monkey-patch through a closure environment
-    orig = peval.ev
-
-    def ev2(node, env):
-        e2 = dict(consts)
-        e2.update(_JoinTypeEnv(ctx))
-        e2.update(env)
-        return orig(node, e2)
-    peval.ev = ev2
-    try:
-        return eval_join_dispatch(ctx, ps, jt)
-    finally:
-        peval.ev = orig
 
 
 def _JoinTypeEnv(ctx):
